@@ -152,14 +152,50 @@ def r17c(chk, rid='R17.c'):
     chk.rule(rid, "media query grammar: the keyword predicates (only/not, media type, and) compare the normalised token value; the media type production hands back the first token that no longer matches (stopIfNoMoreMatch) so that the list parser sees the comma; MEDIA_TYPES holds the ten CSS 2.1 types")
     m = chk.repo.mod(MQ)
     fn = m.get('MediaQuery._setMediaText')
+    # every match predicate of the productions (a lambda or a local function handed over as match=) is evaluated:
+    # a keyword it accepts in lower case is accepted in upper case and with a simple escape too
+    from sa.absint import Evaluator, Raised, Record
+
+    preds = []
+    for c in ast.walk(fn):
+        if isinstance(c, ast.Call):
+            for k in c.keywords:
+                if k.arg == 'match':
+                    tgt = k.value
+                    if isinstance(tgt, ast.Name):
+                        defs = [d for d in ast.walk(fn) if isinstance(d, ast.FunctionDef) and d.name == tgt.id]
+                        binds = [st.value for st in ast.walk(fn) if isinstance(st, ast.Assign) and any(isinstance(t, ast.Name) and t.id == tgt.id for t in st.targets)]
+                        tgt = (defs or [b for b in binds if isinstance(b, ast.Lambda)] or [None])[0]
+                    if isinstance(tgt, (ast.Lambda, ast.FunctionDef)) and tgt not in preds:
+                        preds.append(tgt)
+    mt = m.class_assign('MediaQuery', 'MEDIA_TYPES')
+    types_ = [const(e) for e in mt.elts] if isinstance(mt, (ast.List, ast.Tuple)) else []
+    me = Record(MEDIA_TYPES=types_, _prods=Record(IDENT='IDENT', CHAR='CHAR', S='S'))
+
+    def norm(x):
+        import re as _re
+        return _re.sub(r'\\([^0-9a-fA-F\n\r\f])', r'\1', x).lower() if x else x
+
+    intr = {'normalize': norm, 'self': me, 'types': me._prods, 'PreDef': Record(types=me._prods)}
     n = 0
-    for lam in ast.walk(fn):
-        if isinstance(lam, ast.Lambda) and [a.arg for a in lam.args.args] == ['t', 'v']:
-            for c in ast.walk(lam.body):
-                if isinstance(c, ast.Compare) and any(isinstance(x, ast.Name) and x.id == 'v' for x in ast.walk(c)):
-                    n += 1
-                    ok = 'normalize(v)' in text(c)
-                    chk.ob(rid, MQ, 'MediaQuery._setMediaText', f'`{text(c)[:60]}` uses the normalised value', ok, 'keyword recognised in lower case only')
+    for p_ in preds:
+        ev = Evaluator(p_, intrinsics=intr, module=m, cls='MediaQuery')
+        accepted = []
+        for kw_ in ('only', 'not', 'and', 'print', 'screen', 'all', 'tv'):
+            try:
+                lo = ev.call_function(p_, ['IDENT', kw_], {})
+                up = ev.call_function(p_, ['IDENT', kw_.upper()], {})
+                esc = ev.call_function(p_, ['IDENT', kw_[0] + '\\' + kw_[1:] if kw_[1] not in 'abcdef' else kw_], {})
+            except AnalysisError:
+                lo = None
+            if lo is None or isinstance(lo, Raised):
+                accepted = None
+                break
+            if lo:
+                accepted.append(kw_)
+                chk.ob(rid, MQ, 'MediaQuery._setMediaText', f'the predicate that accepts `{kw_}` accepts it in upper case and with an escape as well', bool(up) and bool(esc), 'keyword recognised in lower case only')
+        if accepted:
+            n += 1
     if n < 3:
         raise AnalysisError('MediaQuery productions not recognised')
     # a query that continues with `and (...)` is not a simple media type: the AND production
@@ -170,7 +206,20 @@ def r17c(chk, rid='R17.c'):
            "`tv and (color)` reports mediaType 'tv': duplicate filtering and the 'all' collapse of the media list drop feature queries")
     only = [c for c in ast.walk(fn) if isinstance(c, ast.Call) and call_name(c).endswith('Prod') and any(k.arg == 'name' and const(k.value) == 'ONLY|NOT' for k in c.keywords)]
     chk.ob(rid, MQ, 'MediaQuery._setMediaText', "the ONLY|NOT production stores 'not simple'", bool(only) and all(any(k.arg == 'toStore' and const(k.value) == 'not simple' for k in c.keywords) for c in only), '')
-    chk.ob(rid, MQ, 'MediaQuery._setMediaText', 'mediaType is set only for simple queries', "if 'not simple' not in store:" in ast.unparse(fn), '', shape=True)
+    # what is committed after the parse, by evaluation with the parse result supplied
+    from sa.absint import Obj
+
+    for label, store, want in (('a plain media type', {'media_type': Record(value='tv')}, 'tv'), ('a media type followed by `and (...)`', {'media_type': Record(value='tv'), 'not simple': Record(value='and')}, 'OLD'),
+                               ('only/not in front of the type', {'not simple': Record(value='only'), 'media_type': Record(value='tv')}, 'OLD'), ('features only', {}, 'OLD')):
+        me2 = Obj(_checkReadonly=lambda: None, _wellformed=None, mediaType='OLD', _mediaType='OLD', _partof=False, MEDIA_TYPES=types_, _setSeq=lambda sq: None, _text=None)
+        lax = Record(char=lambda **k: None, types=me._prods, comma=lambda **k: None, S=lambda **k: None, ident=lambda **k: None, comment=lambda **k: None)
+        intr2 = {'ProdParser().parse': lambda *a, store=store, **k: (True, ['seq'], dict(store), None), 'Sequence': lambda *a, **k: None, 'Choice': lambda *a, **k: None, 'Prod': lambda *a, **k: None,
+                 'PreDef': lax, 'normalize': norm, 'cssutils': Record(css=Record(value=Record(MediaQueryValueProd=lambda *a, **k: None)))}
+        r = Evaluator(fn, intrinsics=intr2, module=m, cls='MediaQuery').run(self=me2, mediaText='text')
+        if isinstance(r, Raised):
+            raise AnalysisError(f'MediaQuery._setMediaText: {r!r}')
+        chk.ob(rid, MQ, 'MediaQuery._setMediaText', f'{label}: mediaType ' + ('is the type' if want != 'OLD' else 'is not set (the query is not a simple type)'), me2.mediaType == want and me2._wellformed is True,
+               f'mediaType becomes {me2.mediaType!r}: the media list treats a query with features as a plain type (duplicate filtering, the all collapse)')
     src = ast.unparse(fn)
     chk.ob(rid, MQ, 'MediaQuery._setMediaText', 'the media type production stops and hands back on the first non-matching token', "name='media_type'" in src and 'stopIfNoMoreMatch=True' in src, '', shape=True)
     mt = m.class_assign('MediaQuery', 'MEDIA_TYPES')
